@@ -13,10 +13,15 @@ Two parts:
            family: those are counted as `known:F10`;
      (iv)  `_vartime` controls: traces must differ for some pair that differs in the operand the documentation
            names (otherwise the instrument is blind) and must not differ when only the other operands change.
+     (v)   machine-code layer (tools/vlib/c01mc.py): the same wrappers built WITHOUT instrumentation are executed under
+           valgrind/callgrind on the same pairs; per recording window the executed-instruction profile, the
+           taken/executed counts of every jump and the call counts must be identical for both assignments.  This sees
+           what the backend does after LLVM IR (cmov -> branch conversion and the like), which (ii) cannot.
 """
 import os, re, subprocess, time, random, json
 from concurrent.futures import ThreadPoolExecutor
 from . import common as C
+from . import c01mc as MC
 from .common import Case
 from .gen import limb, word, MAXW, B
 
@@ -332,7 +337,7 @@ def known_entries():
     if os.path.exists(p):
         try:
             for f in json.load(open(p)).get('findings', []):
-                if f.get('property') == 'C01' and f.get('status') == 'open' and f.get('c01_stack_regex'):
+                if f.get('property') == 'C01' and f.get('status') == 'open' and (f.get('c01_stack_regex') or f.get('c01_mc_site_regex')):
                     out = [e for e in out if e['id'] != f.get('id')] + [f]
         except Exception:
             pass
@@ -344,8 +349,33 @@ def known_match(pair, res, entries):
     for e in entries:
         if not re.fullmatch(e.get('op_regex', '.*'), pair['op']):
             continue
+        if not e.get('c01_stack_regex'):
+            continue
         rx = re.compile(e['c01_stack_regex'])
         if st1 and st2 and rx.search(st1) and rx.search(st2):
+            return e['id']
+    return None
+
+MC_BUILTIN = {
+    # F10: everything below the inversion / gcd entry points is data dependent (safegcd jump / divsteps trip counts, the
+    # Option conversions of the boxed inverters); a pair whose only differences are trip counts has no decision site.
+    'F10': r'safegcd|::inv_mod \(|Inverter>::invert \(|::gcd \(|inv_odd_mod|invert',
+}
+
+def mc_known_match(pair, info, entries):
+    """A machine-code difference belongs to an open finding iff the wrapper matches its op_regex and EVERY decision site
+    (conditional jump executed equally often but taken differently) matches its c01_mc_site_regex; a pair without any
+    decision site (only trip counts differ) needs one matching site among the other differing records."""
+    for e in entries:
+        rxs = e.get('c01_mc_site_regex') or MC_BUILTIN.get(e.get('id'))
+        if not rxs or not re.fullmatch(e.get('op_regex', '.*'), pair['op']):
+            continue
+        rx = re.compile(rxs)
+        dec, oth = info.get('decision_sites', []), info.get('other_sites', [])
+        if dec:
+            if all(rx.search(x) for x in dec):
+                return e['id']
+        elif any(rx.search(x) for x in oth):
             return e['id']
     return None
 
@@ -466,6 +496,67 @@ def extra_check(ctx, seed=None, replay=None, only=None):
     if vary_seen and len(blind) * 2 > len(vary_seen):
         raise C.CheckerError('c01: the instrument sees no data dependence in %d of %d variable-time controls: %s' % (
             len(blind), len(vary_seen), blind[:10]))
+    # ---- (v) machine-code layer: uninstrumented -O3 build under callgrind, same pairs
+    mc_violations, mc_known, mc_stats = [], {}, {}
+    if os.environ.get('VERIF_C01_MC', '1') != '0':
+        t1 = time.time()
+        rcm, outm, exem, dtm = MC.build_mc()
+        if rcm != 0:
+            return ([{'kind': 'corr', 'op': 'build', 'obligation': 'ct/ machine-code binary builds against /repo',
+                      'desc': 'the uninstrumented wrapper binary does not build against %s: %s' % (C.REPO, outm[-1500:])}],
+                    {'ct_build_failed': True, 'obligations': 1})
+        mres = MC.run_mc(exem, pairs)
+        mc_same = mc_diff = 0
+        mc_vary = {}
+        mc_per_op = {}
+        for p in pairs:
+            r = mres.get(p['id'])
+            if r is None or r[0] == 'error':
+                raise C.CheckerError('c01: machine-code pair not runnable: %s %s | %s -> %s' % (p['op'], p['a1'][:200], p['a2'][:200], r))
+            differs = r[0] == 'diff'
+            mc_same += 0 if differs else 1
+            mc_diff += 1 if differs else 0
+            st = mc_per_op.setdefault(p['op'], [0, 0]); st[0] += 1; st[1] += 1 if differs else 0
+            if p['op'].startswith('selftest') and p['kind'] != 'vt-vary':
+                continue        # controls of the trace recorder (division operands, indices): not visible in a control-flow profile
+            if p['kind'] == 'vt-vary':
+                v = mc_vary.setdefault(p['op'], [0, 0]); v[0] += 1; v[1] += 1 if differs else 0
+                continue
+            if not differs:
+                continue
+            d = {'op': p['op'], 'class': p['cls'], 'pair_kind': p['kind'], 'args1': p['a1'], 'args2': p['a2'],
+                 'layer': 'machine code (uninstrumented opt-level 3 build under callgrind)', 'mc': r[1]}
+            kid = mc_known_match(p, r[1], kentries)
+            if kid:
+                d['known'] = kid
+                mc_known.setdefault(p['op'], d)
+            else:
+                mc_violations.append(d)
+        mc_blind = sorted(o for o, (n, nd) in mc_vary.items() if nd == 0)
+        # the profile has control flow only: the branch and loop self-tests must be seen, the index / store / division ones cannot be
+        if [b for b in mc_blind if b in ('selftest1.branch', 'selftest1.loop')]:
+            raise C.CheckerError('c01: machine-code instrument self-test failed (no data dependence seen for %s)' % mc_blind)
+        mc_stats = {'c01_mc_pairs': len(pairs), 'c01_mc_pairs_same': mc_same, 'c01_mc_pairs_diff': mc_diff,
+                    'c01_mc_wrappers': len(mc_per_op), 'c01_mc_controls_seen_varying': len([1 for v in mc_vary.values() if v[1]]),
+                    'c01_mc_controls_blind': mc_blind,
+                    'c01_mc_known': {op: 'known:' + mc_known[op]['known'] for op in sorted(mc_known)},
+                    'c01_mc_build_s': round(dtm, 1), 'c01_mc_wall_s': round(time.time() - t1, 1)}
+    mc_byop = {}
+    for v in mc_violations:
+        k = v['op']
+        if k not in mc_byop or len(v['args1']) + len(v['args2']) < len(mc_byop[k]['args1']) + len(mc_byop[k]['args2']):
+            mc_byop[k] = v
+    def finish_mc(v):
+        v['kind'] = 'spec'
+        v['obligation'] = 'machine-code:' + v['op']
+        v['c01_pair'] = {'op': v['op'], 'class': v['class'], 'pair_kind': v['pair_kind'], 'args1': v['args1'], 'args2': v['args2']}
+        m = v['mc']
+        v['desc'] = ('%s (%s): the machine code of the optimized build executes differently for two secret assignments: %s | %s -> '
+                     '%d vs %d instructions; %s at %s %s; secret-dependent decisions at %s' % (
+                         v['op'], 'constant-time operation' if v['pair_kind'] == 'ct' else 'operands its documentation does not name',
+                         v['args1'][:160], v['args2'][:160], m['instructions1'], m['instructions2'], m['what'], m['address'], m['site'],
+                         '; '.join(m.get('decision_sites', [])[:4]) or '(trip counts only)'))
+        return v
     # one violation per (op) is enough for the report; keep the shortest pair as the replay
     byop = {}
     for v in violations:
@@ -526,7 +617,18 @@ def extra_check(ctx, seed=None, replay=None, only=None):
         'obligations': len(per_op),
         'known_finding_lines': known_lines,
     }
-    return vio + known_vio, stats
+    mc_vio = [finish_mc(mc_byop[k]) for k in sorted(mc_byop, key=lambda k: (len(mc_byop[k]['args1']) + len(mc_byop[k]['args2']), k))]
+    mc_sites = {}
+    for k, v in mc_byop.items():
+        key = ' | '.join(re.sub(r':\d+\)$', ')', x) for x in (v['mc'].get('decision_sites') or [v['mc'].get('site', '?')])[:3])
+        mc_sites.setdefault(key, []).append(k)
+    if mc_vio:
+        mc_vio[0]['all_violating_wrappers_by_machine_code_site'] = {k: sorted(v) for k, v in sorted(mc_sites.items())}
+    mc_known_vio = [finish_mc(mc_known[k]) for k in sorted(mc_known, key=lambda k: (len(mc_known[k]['args1']) + len(mc_known[k]['args2']), k))]
+    stats.update(mc_stats)
+    stats['c01_mc_violating_wrappers'] = sorted(mc_byop.keys())
+    # one entry per finding id and layer is enough for the KNOWN-FINDING lines
+    return vio + mc_vio + known_vio + mc_known_vio, stats
 
 if __name__ == '__main__':
     # stand-alone use:  python3 -m vlib.c01 [quick|thorough] [wrapper-regex]   |   python3 -m vlib.c01 --replay FILE
